@@ -24,6 +24,7 @@ type Gen struct {
 	MaxList int
 	// Depth guard for nested objects.
 	Classes map[string]int // shape-class counters: "<type>/<field>/<class>" -> hits
+	Small   bool           // no long lists / long texts (keeps checksum evaluation in TLC cheap)
 }
 
 func NewGen(seed int64) *Gen {
@@ -163,7 +164,7 @@ func (g *Gen) dynText(t, fname string, mode Mode) []int {
 	switch c := g.R.Intn(8); {
 	case c == 0:
 		l = 0
-	case c == 1:
+	case c == 1 && !g.Small:
 		l = 255 + g.R.Intn(3)
 		g.hit(t, fname, "len255+")
 	default:
@@ -184,7 +185,7 @@ func (g *Gen) listLen(t, fname string) int {
 	case c == 1:
 		g.hit(t, fname, "list1")
 		return 1
-	case c == 2:
+	case c == 2 && !g.Small:
 		g.hit(t, fname, "listbig")
 		return 17 + g.R.Intn(260) // crosses 255/256
 	default:
